@@ -1667,4 +1667,33 @@ theorem parseObj_fmtPath_repr (steps : List (Step L)) (hv : validP steps = true)
 
 end roundtrip
 
+/-! ### facts -/
+
+theorem wf_fmt {F : Facts} (h : WF F = true) : F.fmt = F1 := by
+  simp only [WF, Bool.and_eq_true] at h
+  obtain ⟨⟨⟨⟨⟨⟨⟨h1, h2⟩, h3⟩, _⟩, _⟩, _⟩, _⟩, _⟩ := h
+  cases hf : F.fmt with
+  | mk a b c => rw [hf] at h1 h2 h3; simp only at h1 h2 h3; subst h1; subst h2; subst h3; rfl
+
+
+theorem pickle_roundtrip {L : Type} (F : Facts) (hwf : WF F = true) (root : String)
+    (hr : root ∈ ["T", "S", "A"]) (steps : List (Step L)) :
+    (getstate F.getstateRoots root steps).bind (setstate F.setstateRoots) = some (root, steps) := by
+  simp only [WF, Bool.and_eq_true, List.all_eq_true] at hwf
+  have := hwf.1.1.1.1.2 root hr
+  obtain ⟨h1, h2⟩ := this
+  simp only [List.contains_eq_mem, decide_eq_true_eq] at h1 h2
+  simp [getstate, setstate, h1, h2]
+
+theorem pickleObj_valid {L : Type} (F : Facts) (hwf : WF F = true) (x : Obj L)
+    (hv : validObj x = true) : pickleObj F x = some x := by
+  cases x with
+  | tobj r s =>
+    simp only [validObj, Bool.and_eq_true, List.contains_eq_mem, decide_eq_true_eq] at hv
+    simp only [pickleObj, pickle_roundtrip F hwf r hv.1 s, Option.map_some]
+  | pobj r s =>
+    simp only [validObj, Bool.and_eq_true, beq_iff_eq] at hv
+    simp only [pickleObj, pickle_roundtrip F hwf r (by rw [hv.1]; simp) s, Option.map_some]
+
+
 end Glom.C18
